@@ -5,6 +5,7 @@ import (
 	"bytes"
 	"errors"
 	"net"
+	"strings"
 	"sync"
 	"time"
 
@@ -105,7 +106,8 @@ func (cj *CookieJar) getCookiesByHost(host string) []*fasthttp.Cookie {
 	// the purge shortened the slice: store it back, otherwise the map keeps the old length and
 	// with it released (pooled) cookie objects and duplicated tail entries
 	if len(cookies) != len(cj.hostCookies[host]) {
-		cj.hostCookies[host] = cookies
+		// (the key is copied: host may be a view of a request buffer)
+		cj.hostCookies[strings.Clone(host)] = cookies
 	}
 
 	return cookies
@@ -136,11 +138,10 @@ func (cj *CookieJar) SetByHost(host []byte, cookies ...*fasthttp.Cookie) {
 		cj.hostCookies = make(map[string][]*fasthttp.Cookie)
 	}
 
-	hostCookies, ok := cj.hostCookies[hostStr]
-	if !ok {
-		// If the key does not exist in the map, make a copy to avoid unsafe usage.
-		hostStr = string(host)
-	}
+	hostCookies := cj.hostCookies[hostStr]
+	// Always store under a copy of the host: assigning to an existing string key
+	// also replaces the key's pointer, so the map would alias the caller's buffer.
+	hostStr = string(host)
 
 	for _, cookie := range cookies {
 		existing := searchCookieByKeyAndPath(cookie.Key(), cookie.Path(), hostCookies)
@@ -196,11 +197,10 @@ func (cj *CookieJar) parseCookiesFromResp(host, path []byte, resp *fasthttp.Resp
 		cj.hostCookies = make(map[string][]*fasthttp.Cookie)
 	}
 
-	cookies, ok := cj.hostCookies[hostStr]
-	if !ok {
-		// If the key does not exist in the map, make a copy to avoid unsafe usage.
-		hostStr = string(host)
-	}
+	cookies := cj.hostCookies[hostStr]
+	// Always store under a copy of the host: assigning to an existing string key
+	// also replaces the key's pointer, so the map would alias the caller's buffer.
+	hostStr = string(host)
 
 	now := time.Now()
 	resp.Header.VisitAllCookie(func(key, value []byte) {
